@@ -33,6 +33,17 @@ package main
 // taken from the order of the New notifications of the operation.
 //
 // Cases run in child processes (a panic in the chain's goroutines kills the process).
+//
+// Overlap stage (every run, child "race"): a SUBMISSION of T overlapping the BLOCK CONNECTION that
+// confirms T.  The node is assembled on a wrapping store whose GetTransactionsUtxo parks the pool's
+// lookup for T (the call with the single transaction T; after the real lookup = "the inputs were still
+// unspent", or before it).  Goroutine 1 submits T through Chain.ValidateTx and parks; goroutine 2
+// delivers the block that confirms T (as a plain connection or as the last block of a
+// reorganisation that also connects a waiting orphan block); the parked call is released when goroutine 2 has returned or after a delay (on the
+// unchanged tree goroutine 2 waits for the pool's lock, which the submission holds across its lookup);
+// both are awaited, one more block is connected, and the same oracle runs (pool and main chain
+// disjoint, notifications paired).  On the unchanged tree the outcome does not depend on the schedule:
+// whatever the release time, T's addition (if any) happens before the block's RemoveTransaction(T).
 
 import (
 	"bufio"
@@ -49,16 +60,19 @@ import (
 	"sync"
 	"time"
 
+	"github.com/bytom/bytom/database"
+	dbm "github.com/bytom/bytom/database/leveldb"
 	"github.com/bytom/bytom/event"
 	"github.com/bytom/bytom/protocol"
 	"github.com/bytom/bytom/protocol/bc"
 	"github.com/bytom/bytom/protocol/bc/types"
+	"github.com/bytom/bytom/protocol/state"
 	cl "verifharness/chainlib"
 	. "verifharness/hlib"
 )
 
 func main() {
-	Main("C23", runC23, map[string]func([]string) int{"batch": childBatch, "template": childTemplate})
+	Main("C23", runC23, map[string]func([]string) int{"batch": childBatch, "template": childTemplate, "race": childRace})
 }
 
 // ---------------------------------------------------------------- case description (replayable)
@@ -137,6 +151,7 @@ type env struct {
 	tip     *cl.BlockInfo
 	roots   []cl.Out
 	caseSeq int
+	mkNode  func(dir string) (*cl.Node, error) // nil: chainlib.NewNode
 }
 
 const rootLabel = 1000
@@ -283,7 +298,11 @@ func (e *env) newCase(r *Rng, spec CaseSpec) (*caseRun, error) {
 	if err := copyDir(e.tmpl, dir); err != nil {
 		return nil, err
 	}
-	n, err := cl.NewNode(dir)
+	mk := e.mkNode
+	if mk == nil {
+		mk = cl.NewNode
+	}
+	n, err := mk(dir)
 	if err != nil {
 		return nil, err
 	}
@@ -1164,6 +1183,356 @@ func childBatch(args []string) int {
 	return 0
 }
 
+// ---------------------------------------------------------------- overlap stage: submission of T while the block confirming T connects
+
+// parkStore wraps the node's store: the pool's utxo lookup for one chosen transaction can be parked.
+type parkStore struct {
+	state.Store
+	mu      sync.Mutex
+	armed   bool
+	before  bool // park before the real lookup (otherwise after it)
+	target  bc.Hash
+	parked  chan struct{}
+	release chan struct{}
+	saved   chan struct{} // closed when the chain status of the next reorganisation has been written
+}
+
+func (s *parkStore) arm(target bc.Hash, before bool) {
+	s.mu.Lock()
+	defer s.mu.Unlock()
+	s.armed, s.before, s.target = true, before, target
+	s.parked, s.release, s.saved = make(chan struct{}), make(chan struct{}), make(chan struct{})
+}
+
+// setState's write: what follows in reorganizeChain is the RemoveTransaction loop
+func (s *parkStore) SaveChainStatus(bh *types.BlockHeader, main []*types.BlockHeader, view *state.UtxoViewpoint, cv *state.ContractViewpoint, fh uint64, fhash *bc.Hash) error {
+	err := s.Store.SaveChainStatus(bh, main, view, cv, fh, fhash)
+	s.mu.Lock()
+	if s.saved != nil {
+		select {
+		case <-s.saved:
+		default:
+			close(s.saved)
+		}
+	}
+	s.mu.Unlock()
+	return err
+}
+
+// the pool's checkOrphanUtxos looks up exactly one transaction; block processing looks up whole blocks
+func (s *parkStore) GetTransactionsUtxo(view *state.UtxoViewpoint, txs []*bc.Tx) error {
+	s.mu.Lock()
+	hit := s.armed && len(txs) == 1 && txs[0].ID == s.target
+	if hit {
+		s.armed = false
+	}
+	before, parked, release := s.before, s.parked, s.release
+	s.mu.Unlock()
+	if hit && before {
+		close(parked)
+		<-release
+	}
+	err := s.Store.GetTransactionsUtxo(view, txs)
+	if hit && !before {
+		close(parked)
+		<-release
+	}
+	return err
+}
+
+type RaceArgs struct {
+	Seed  uint64 `json:"seed"`
+	First int    `json:"first"`
+	N     int    `json:"n"`
+	Dir   string `json:"dir"`
+	Tmpl  string `json:"tmpl"`
+}
+
+type raceVariant struct {
+	name   string
+	before bool // park before the real lookup
+	reorg  bool // T is confirmed by a reorganisation (side block b1(T), then b2 overtakes a1)
+	two    bool // T has two inputs and the block carries a second transaction
+	child  bool // T spends an output of a pooled parent that the same block confirms
+	early  bool // release after a short random delay instead of waiting for the block
+}
+
+var raceVariants = []raceVariant{
+	{name: "after-lookup"},
+	{name: "after-lookup-reorg", reorg: true},
+	{name: "before-lookup", before: true},
+	{name: "after-lookup-two-inputs", two: true},
+	{name: "after-lookup-child", child: true},
+	{name: "after-lookup-early-release", early: true},
+	{name: "before-lookup-reorg", before: true, reorg: true},
+	{name: "after-lookup-reorg-child", reorg: true, child: true},
+}
+
+func runRace(e *env, ps **parkStore, r *Rng, idx int, v raceVariant) (*CaseResult, error) {
+	// universe: [P (only for child), T, X (second transaction of the block, only for two)]
+	rt := perm(r, nRoots)
+	var univ []TxSpec
+	tLabel := 1
+	if v.child {
+		univ = append(univ, TxSpec{Ins: []string{rootRef(rt[0])}, NOuts: 2})
+		univ = append(univ, TxSpec{Ins: []string{outRef(1, 0)}, NOuts: 1})
+		tLabel = 2
+	} else if v.two {
+		univ = append(univ, TxSpec{Ins: []string{rootRef(rt[0]), rootRef(rt[1])}, NOuts: 2})
+	} else {
+		univ = append(univ, TxSpec{Ins: []string{rootRef(rt[0])}, NOuts: 1 + r.Intn(2)})
+	}
+	xLabel := 0
+	if v.two {
+		univ = append(univ, TxSpec{Ins: []string{rootRef(rt[2])}, NOuts: 1})
+		xLabel = len(univ)
+	}
+	spec := CaseSpec{Shape: "overlap-" + v.name, Univ: univ}
+	c, err := e.newCase(r, spec)
+	if err != nil {
+		return nil, err
+	}
+	store := *ps
+	c.counts["shape:"+spec.Shape]++
+	step := 0
+	do := func(op OpSpec) error {
+		spec.Ops = append(spec.Ops, op)
+		err := c.apply(step, op)
+		step++
+		return err
+	}
+	var blockTxs []int
+	if v.child {
+		if err := do(OpSpec{K: "submit", T: 1}); err != nil { // the parent is pooled
+			return nil, err
+		}
+		blockTxs = append(blockTxs, 1)
+	}
+	blockTxs = append(blockTxs, tLabel)
+	if xLabel > 0 {
+		if r.Bool() {
+			if err := do(OpSpec{K: "submit", T: xLabel}); err != nil {
+				return nil, err
+			}
+		}
+		blockTxs = append(blockTxs, xLabel)
+	}
+	// the block whose delivery confirms T
+	var confirming *blockInfo
+	mk := func(parent *blockInfo, ts []int) *blockInfo {
+		var txs []*types.Tx
+		for _, l := range ts {
+			txs = append(txs, c.univ[l-1].Tx)
+		}
+		bi := c.e.w.NewBlock(parent.BI, txs, cl.BlockOpt{Skip: parent.NChild})
+		parent.NChild++
+		b := &blockInfo{Label: len(c.blocks), BI: bi, Parent: parent, Txs: append([]int{}, ts...)}
+		c.blocks = append(c.blocks, b)
+		c.byHash[bi.Hash] = b
+		return b
+	}
+	expectBest := (*blockInfo)(nil)
+	if v.reorg {
+		// a1, a2 (empty) are the main chain; b1(T...) is delivered as a side block (lower: no tie), b3 as an
+		// orphan (its parent b2 is missing); delivering b2 connects b2 and b3 and reorganises onto b1, b2, b3
+		for k := 0; k < 2; k++ {
+			if err := do(OpSpec{K: "block", Parent: k}); err != nil {
+				return nil, err
+			}
+		}
+		if c.best.Label != 2 {
+			return nil, fmt.Errorf("overlap: a2 did not become best")
+		}
+		b1 := mk(c.blocks[0], blockTxs)
+		b2 := mk(b1, nil)
+		b3 := mk(b2, nil)
+		if orphan, err := c.n.Process(b1.BI.Block); err != nil || orphan {
+			return nil, fmt.Errorf("overlap: side block refused: orphan=%v err=%v", orphan, err)
+		}
+		if orphan, err := c.n.Process(b3.BI.Block); err != nil || !orphan {
+			return nil, fmt.Errorf("overlap: block with a missing parent: orphan=%v err=%v", orphan, err)
+		}
+		spec.Ops = append(spec.Ops, OpSpec{K: "block", Parent: 0, Ts: blockTxs}, OpSpec{K: "block-orphan", Parent: b2.Label})
+		if o, err := c.observe(step); err != nil {
+			return nil, err
+		} else if o.best != 2 {
+			return nil, fmt.Errorf("overlap: the side blocks changed the best block")
+		}
+		step++
+		confirming, expectBest = b2, b3
+	} else {
+		confirming = mk(c.blocks[0], blockTxs)
+		expectBest = confirming
+	}
+	spec.Ops = append(spec.Ops, OpSpec{K: "submit||block", T: tLabel, Parent: confirming.Parent.Label, Ts: confirming.Txs, Mode: v.name})
+
+	t := c.univ[tLabel-1]
+	store.arm(t.Tx.ID, v.before)
+	done1 := make(chan error, 1)
+	done2 := make(chan error, 1)
+	go func() {
+		_, err := c.n.Chain.ValidateTx(t.Tx)
+		done1 <- err
+	}()
+	select {
+	case <-store.parked:
+	case err := <-done1:
+		return nil, fmt.Errorf("overlap: the submission returned without reaching the pool's utxo lookup (err=%v)", err)
+	case <-time.After(20 * time.Second):
+		return nil, fmt.Errorf("overlap: the submission did not reach the pool's utxo lookup")
+	}
+	t0 := time.Now()
+	var blockMs int64
+	go func() {
+		orphan, err := c.n.Process(confirming.BI.Block)
+		blockMs = int64(time.Since(t0) / time.Millisecond)
+		if err == nil && orphan {
+			err = fmt.Errorf("delivered as orphan")
+		}
+		done2 <- err
+	}()
+	// release when the block has been processed, or a moment after the reorganisation has written the new
+	// chain status (what follows is its RemoveTransaction loop: the unchanged tree makes it wait for the
+	// pool's lock, which the parked submission holds), at the latest after 5 s; "early": after 0-40 ms
+	var err2 error
+	blockFirst := false
+	if v.early {
+		select {
+		case err2 = <-done2:
+			blockFirst = true
+		case <-time.After(time.Duration(r.Intn(40)) * time.Millisecond):
+		}
+	} else {
+		select {
+		case err2 = <-done2:
+			blockFirst = true
+		case <-store.saved:
+			select {
+			case err2 = <-done2:
+				blockFirst = true
+			case <-time.After(120 * time.Millisecond):
+			}
+		case <-time.After(5 * time.Second):
+			c.counts["overlap:chain-status-not-written-in-5s"]++
+		}
+	}
+	close(store.release)
+	if !blockFirst {
+		select {
+		case err2 = <-done2:
+		case <-time.After(30 * time.Second):
+			return nil, fmt.Errorf("overlap: block processing did not return after the lookup was released")
+		}
+	}
+	var err1 error
+	select {
+	case err1 = <-done1:
+	case <-time.After(30 * time.Second):
+		return nil, fmt.Errorf("overlap: the submission did not return after the lookup was released")
+	}
+	if err2 != nil {
+		return nil, fmt.Errorf("overlap: block confirming the transaction refused: %v", err2)
+	}
+	switch {
+	case blockMs < 50:
+		c.counts["overlap:block-delivery-under-50ms"]++
+	case blockMs < 350:
+		c.counts["overlap:block-delivery-50-350ms"]++
+	default:
+		c.counts["overlap:block-delivery-over-350ms"]++
+	}
+	if blockFirst {
+		c.counts["overlap:block-returned-while-lookup-parked"]++
+	} else {
+		c.counts["overlap:block-waited-for-the-submission"]++
+	}
+	if err1 != nil {
+		c.counts["overlap:submission-refused"]++
+	}
+	o, err := c.observe(step)
+	if err != nil {
+		return nil, err
+	}
+	step++
+	c.best = c.blocks[o.best]
+	if c.best != expectBest {
+		return nil, fmt.Errorf("overlap: the delivery did not make block %d best", expectBest.Label)
+	}
+	inPool := false
+	for _, l := range o.pool {
+		if l == tLabel {
+			inPool = true
+		}
+	}
+	isOrphan := false
+	for _, l := range o.orphans {
+		if l == tLabel {
+			isOrphan = true
+		}
+	}
+	switch {
+	case inPool:
+		c.counts["overlap:outcome-pooled"]++
+	case isOrphan:
+		c.counts["overlap:outcome-orphan"]++
+	default:
+		c.counts["overlap:outcome-absent"]++
+	}
+	// "never removed": one more block connection, then the oracle again
+	if err := do(OpSpec{K: "block", Parent: expectBest.Label}); err != nil {
+		return nil, err
+	}
+	c.spec = spec
+	return &CaseResult{Idx: idx, Spec: spec, Counts: c.counts, Nontrivial: true, Fails: c.fails}, nil
+}
+
+func childRace(args []string) int {
+	if len(args) != 1 {
+		return 2
+	}
+	var a RaceArgs
+	if err := json.Unmarshal([]byte(args[0]), &a); err != nil {
+		fmt.Fprintln(os.Stderr, err)
+		return 2
+	}
+	e, err := newEnv(a.Dir, a.Tmpl)
+	if err != nil {
+		fmt.Fprintln(os.Stderr, "harness child error:", err)
+		return 3
+	}
+	var ps *parkStore
+	e.mkNode = func(dir string) (*cl.Node, error) {
+		os.MkdirAll(dir, 0755)
+		db := dbm.NewDB("core", "leveldb", dir)
+		store := database.NewStore(db)
+		ps = &parkStore{Store: store}
+		disp := event.NewDispatcher()
+		pool := protocol.NewTxPool(ps, disp)
+		chain, err := protocol.NewChain(ps, pool, disp)
+		if err != nil {
+			return nil, err
+		}
+		return &cl.Node{Dir: dir, DB: db, Store: store, Pool: pool, Disp: disp, Chain: chain}, nil
+	}
+	out := bufio.NewWriter(os.Stdout)
+	r := NewRng(a.Seed)
+	for k := 0; k < a.N; k++ {
+		idx := a.First + k
+		fmt.Fprintf(out, "BEGIN %d\n", idx)
+		out.Flush()
+		res, err := runRace(e, &ps, r, idx, raceVariants[k%len(raceVariants)])
+		if err != nil {
+			fmt.Fprintln(os.Stderr, "harness child error:", err)
+			return 3
+		}
+		js, _ := json.Marshal(res)
+		out.Write(js)
+		out.WriteString("\n")
+		out.Flush()
+	}
+	return 0
+}
+
 // ---------------------------------------------------------------- parent
 
 func jobs() int {
@@ -1182,9 +1551,11 @@ type batchOut struct {
 	err     error
 }
 
-func runBatch(a BatchArgs) batchOut {
+func runBatch(a BatchArgs) batchOut { return runChild("batch", a) }
+
+func runChild(child string, a interface{}) batchOut {
 	js, _ := json.Marshal(a)
-	cmd := exec.Command(os.Args[0], "child", "batch", string(js))
+	cmd := exec.Command(os.Args[0], "child", child, string(js))
 	var stderr bytes.Buffer
 	cmd.Stderr = &stderr
 	stdout, err := cmd.StdoutPipe()
@@ -1231,7 +1602,7 @@ func runBatch(a BatchArgs) batchOut {
 }
 
 func runC23(c *Ctx) error {
-	c.Stats.Rule = "transaction universes over 12 confirmed OP_TRUE roots of a real chain (two families with a joining transaction, conflicting pairs with children, chain plus a second spender of its first output, multi-parent, random DAG with double spends; retirement outputs, TimeRanges expiring 1-4 blocks above the start, a dust transaction) and 8-21 operations chosen from the node's current state: submit (fresh, children first half of the time; re-submission of pooled / orphaned / confirmed / refused ones), a real block built on the best tip, on a side tip (until it overtakes) or as a sibling up to 3 below the best tip, carrying transactions applicable on that branch (pooled 65%, confirmed on the best branch 50%, others 25%), ExpireOrphan all / none; a fixed corpus runs first (reorganisation forth and back with one-branch / both-branch / conflicting / never-confirmed transactions, an orphan that gets confirmed, re-submission after confirmation, both branches, TimeRange expiry on restore, twins); distinct = distinct (universe, operation list); non-trivial = a reorganisation detached a block with transactions and the pool posted at least one removal"
+	c.Stats.Rule = "transaction universes over 12 confirmed OP_TRUE roots of a real chain (two families with a joining transaction, conflicting pairs with children, chain plus a second spender of its first output, multi-parent, random DAG with double spends; retirement outputs, TimeRanges expiring 1-4 blocks above the start, a dust transaction) and 8-21 operations chosen from the node's current state: submit (fresh, children first half of the time; re-submission of pooled / orphaned / confirmed / refused ones), a real block built on the best tip, on a side tip (until it overtakes) or as a sibling up to 3 below the best tip, carrying transactions applicable on that branch (pooled 65%, confirmed on the best branch 50%, others 25%), ExpireOrphan all / none; a fixed corpus runs first (reorganisation forth and back with one-branch / both-branch / conflicting / never-confirmed transactions, an orphan that gets confirmed, re-submission after confirmation, both branches, TimeRange expiry on restore, twins); distinct = distinct (universe, operation list); non-trivial = a reorganisation detached a block with transactions and the pool posted at least one removal; plus the overlap stage (8 / 48 repetitions, oracle only): a submission of T parked inside the pool's utxo lookup (wrapping store) while the block confirming T is delivered (plain connection or reorganisation; T alone, with two inputs, or as the child of a pooled parent confirmed by the same block; parked after or before the real lookup; released when the block has returned or after a delay)"
 	total := c.N(360, 2400)
 	per := 40
 	if c.Thorough() {
@@ -1267,9 +1638,24 @@ func runC23(c *Ctx) error {
 		first += a.N
 		batches = append(batches, a)
 	}
-	outs := make([]batchOut, len(batches))
+	outs := make([]batchOut, len(batches)+1)
+	seeds := make([]uint64, len(batches)+1)
+	for i := range batches {
+		seeds[i] = batches[i].Seed
+	}
+	// the overlap stage (submission of T while the block confirming T connects): one more child
+	race := RaceArgs{Seed: c.Rng.Next(), First: total + ncorpus, N: c.N(8, 48), Dir: filepath.Join(base, "race"), Tmpl: tmpl}
+	seeds[len(batches)] = race.Seed
 	sem := make(chan struct{}, jobs())
 	var wg sync.WaitGroup
+	wg.Add(1)
+	go func() {
+		defer wg.Done()
+		sem <- struct{}{}
+		outs[len(batches)] = runChild("race", race)
+		os.RemoveAll(race.Dir)
+		<-sem
+	}()
 	for i := range batches {
 		wg.Add(1)
 		go func(i int) {
@@ -1290,7 +1676,7 @@ func runC23(c *Ctx) error {
 	header := "From Coq Require Import List NArith Bool.\nFrom C22 Require Import Model.\nFrom C23 Require Import Model Run.\nImport ListNotations.\nOpen Scope N_scope.\n"
 	for i, bo := range outs {
 		if bo.err != nil {
-			return fmt.Errorf("batch %d (seed %d): %v", i, batches[i].Seed, bo.err)
+			return fmt.Errorf("batch %d (seed %d): %v", i, seeds[i], bo.err)
 		}
 		for _, r := range bo.results {
 			key, _ := json.Marshal(r.Spec)
@@ -1305,10 +1691,14 @@ func runC23(c *Ctx) error {
 			} else {
 				c.Stats.Count("case:trivial")
 			}
-			id := c.Cases.Add(r.Model, r.Observed)
-			c.Stats.Count("model_evaluated")
-			if id < 1500 || len(r.Fails) > 0 {
-				c.Stats.CaseIndex[strconv.Itoa(id)] = r.Spec
+			if r.Model != "" { // the overlap stage is oracle-only: the model has no concurrent submissions
+				id := c.Cases.Add(r.Model, r.Observed)
+				c.Stats.Count("model_evaluated")
+				if id < 1500 || len(r.Fails) > 0 {
+					c.Stats.CaseIndex[strconv.Itoa(id)] = r.Spec
+				}
+			} else {
+				c.Stats.Count("overlap-stage:cases")
 			}
 			if r.Idx%61 == 3 {
 				c.Stats.Sample(map[string]interface{}{"case": r.Spec, "observed": r.Observed})
@@ -1316,7 +1706,7 @@ func runC23(c *Ctx) error {
 			for _, f := range r.Fails {
 				class := strings.SplitN(strings.TrimPrefix(f.What, "class="), ":", 2)[0]
 				c.Stats.Count("oracle-failure:" + class)
-				pf := pendingFail{f.What, map[string]interface{}{"case": r.Spec, "step": f.Step, "batch_seed": batches[i].Seed, "index": r.Idx}}
+				pf := pendingFail{f.What, map[string]interface{}{"case": r.Spec, "step": f.Step, "batch_seed": seeds[i], "index": r.Idx}}
 				if class == "twin-confirmed-in-pool" {
 					if perClass[class] < 3 {
 						failLater = append(failLater, pf)
@@ -1329,7 +1719,7 @@ func runC23(c *Ctx) error {
 		}
 		if bo.crash != "" {
 			c.Stats.Count("oracle-failure:child-crash")
-			failFirst = append(failFirst, pendingFail{"class=child-crash: " + bo.crash, map[string]interface{}{"batch_seed": batches[i].Seed}})
+			failFirst = append(failFirst, pendingFail{"class=child-crash: " + bo.crash, map[string]interface{}{"batch_seed": seeds[i]}})
 		}
 	}
 	for _, f := range append(failFirst, failLater...) {
